@@ -280,7 +280,8 @@ class Gen:
         lit = self.vix["LiteralBit32"]
         if kind == "int":
             return Inst(self.opv["TypeInt"], "TypeInt", None, rid, [Op("w", lit, width), Op("w", lit, signed)])
-        return Inst(self.opv["TypeFloat"], "TypeFloat", None, rid, [Op("w", lit, width)])
+        enc = [Op("w", self.vix["FPEncoding"], self.enums["FPEncoding"]["decl"][0][1])] if self.rnd.random() < 0.4 else []
+        return Inst(self.opv["TypeFloat"], "TypeFloat", None, rid, [Op("w", lit, width)] + enc)
 
     def all_shapes(self, entry, types=None):
         """every quantifier expansion of an entry: 0..n trailing optionals, variadic 0/1/3"""
